@@ -1,7 +1,7 @@
 /-
   Lemmas for property C18, part 2: `_analyze_entry` / `_parse` / `_parse_block` / `parse_bracket` on fragments
-  (after repair f350973). Result used by Props/C18.lean: the first block of `parse_bracket(name + group + tail)` is the
-  whole group.
+  (after repair f350973). Result used by Props/C18.lean: `parse_bracket(name + group + tail)` = `bracketSpec` (every block a whole group; the group,
+  its top-level groups of the kind and theirs, in pre-order).
 -/
 import Tranp.Lemmas.Block
 
@@ -178,6 +178,14 @@ theorem hitK_some (k : BK) (f i r : Frag) (h : hitK k f = some (i, r)) :
       refine ⟨by rw [preK, if_neg hk, group_append, ← e], ?_, ?_⟩ <;>
         simp only [Frag.render, List.length_cons, List.length_append] <;> omega
 
+/-- `entry_begin` after the scan has passed a fragment that starts at position `p`: the position behind the last top-level
+    blank (block.py:190-191); skipped groups and strings do not move it. -/
+def ebOf : Frag → Nat → Nat → Nat
+  | .nil, _, e => e
+  | .atom c r, p, e => ebOf r (p + 1) (if has [' ', '\n', '\t'] c then p + 1 else e)
+  | .str _ b r, p, e => ebOf r (p + (b.length + 2)) e
+  | .group _ i r, p, e => ebOf r (p + (i.render.length + 2)) e
+
 theorem bk_pair_ne (k : BK) (c : Char) (h : has Frag.special c = false) : c ≠ k.open ∧ c ≠ k.close := plain_ne_bk c k h
 
 /-- The scan of `_analyze_entry` (block.py:180-195, empty delimiter) over a fragment followed by `rest`: it stops at the
@@ -185,8 +193,8 @@ theorem bk_pair_ne (k : BK) (c : Char) (h : has Frag.special c = false) : c ≠ 
 theorem anaLoop_frag (k : BK) (f : Frag) : ∀ (rest : Str) (idx eb fuel : Nat), Frag.Simple f →
     f.render.length + rest.length < fuel →
     (∀ i r, hitK k f = some (i, r) →
-      ∃ eb', anaLoop k.open [k.open, k.close] (otherPairs [k.open, k.close]) fuel (f.render ++ rest) idx eb
-        = .ok (.block eb' (idx + (preK k f).render.length))) ∧
+      anaLoop k.open [k.open, k.close] (otherPairs [k.open, k.close]) fuel (f.render ++ rest) idx eb
+        = .ok (.block (ebOf (preK k f) idx eb) (idx + (preK k f).render.length))) ∧
     (hitK k f = none →
       ∃ eb' fuel', rest.length < fuel' ∧
         anaLoop k.open [k.open, k.close] (otherPairs [k.open, k.close]) fuel (f.render ++ rest) idx eb
@@ -210,8 +218,7 @@ theorem anaLoop_frag (k : BK) (f : Frag) : ∀ (rest : Str) (idx eb fuel : Nat),
     obtain ⟨ih1, ih2⟩ := ih rest (idx + 1) (if has [' ', '\n', '\t'] c then idx + 1 else eb) n hf.2 (by omega)
     constructor
     · intro i r' h
-      obtain ⟨eb', he⟩ := ih1 i r' h
-      exact ⟨eb', by rw [hstep, he]; simp only [preK, Frag.render, List.length_cons]; congr 2; omega⟩
+      rw [hstep, ih1 i r' h]; simp only [preK, ebOf, Frag.render, List.length_cons]; congr 2; omega
     · intro h
       obtain ⟨eb', fuel', hl, he⟩ := ih2 h
       exact ⟨eb', fuel', hl, by rw [hstep, he]; simp only [Frag.render, List.length_cons]; congr 1; omega⟩
@@ -232,8 +239,7 @@ theorem anaLoop_frag (k : BK) (f : Frag) : ∀ (rest : Str) (idx eb fuel : Nat),
     obtain ⟨ih1, ih2⟩ := ih rest (idx + (b.length + 2)) eb n hf.2 (by omega)
     constructor
     · intro i r' h
-      obtain ⟨eb', he⟩ := ih1 i r' h
-      exact ⟨eb', by rw [hstep, he]; simp only [preK, Frag.render, List.length_cons, List.length_append]; congr 2; omega⟩
+      rw [hstep, ih1 i r' h]; simp only [preK, ebOf, Frag.render, List.length_cons, List.length_append]; congr 2; omega
     · intro h
       obtain ⟨eb', fuel', hl, he⟩ := ih2 h
       exact ⟨eb', fuel', hl, by rw [hstep, he]; simp only [Frag.render, List.length_cons, List.length_append]; congr 1; omega⟩
@@ -246,7 +252,7 @@ theorem anaLoop_frag (k : BK) (f : Frag) : ∀ (rest : Str) (idx eb fuel : Nat),
     · subst hk
       constructor
       · intro i' r' _
-        exact ⟨eb, by simp [preK, Frag.render, anaLoop, T.hopen]⟩
+        simp [preK, ebOf, Frag.render, anaLoop, T.hopen]
       · intro h; simp [hitK] at h
     · have ho : classify (otherPairs [k.open, k.close]) k'.open ≠ .none := by rw [T.vopen k' hk]; simp
       have hskip := gskipLen_group T k' hk i (r.render ++ rest) hf.1
@@ -261,8 +267,7 @@ theorem anaLoop_frag (k : BK) (f : Frag) : ∀ (rest : Str) (idx eb fuel : Nat),
       constructor
       · intro i' r' h
         simp only [hitK, if_neg hk] at h
-        obtain ⟨eb', he⟩ := ih1 i' r' h
-        exact ⟨eb', by rw [hstep, he]; simp only [preK, if_neg hk, Frag.render, List.length_cons, List.length_append]; congr 2; omega⟩
+        rw [hstep, ih1 i' r' h]; simp only [preK, if_neg hk, ebOf, Frag.render, List.length_cons, List.length_append]; congr 2; omega
       · intro h
         simp only [hitK, if_neg hk] at h
         obtain ⟨eb', fuel', hl, he⟩ := ih2 h
@@ -304,17 +309,293 @@ theorem analyzeEntry_at (o cl : Char) (pre : Str) (c : Char) (cs : Str) :
     · simp [hco, hcc, has]
 
 
-/-- what `_parse` started at a fragment that is followed by the closing bracket of the enclosing block returns as index -/
+theorem wf_append (p : Char → Bool) (f g : Frag) : Frag.wf p (f ++ g) = (Frag.wf p f && Frag.wf p g) := by
+  induction f with
+  | nil => simp [Frag.wf]
+  | atom c r ih => simp [Frag.wf, ih, Bool.and_assoc]
+  | str q b r ih => simp [Frag.wf, ih, Bool.and_assoc]
+  | group k i r _ ih => simp [Frag.wf, ih, Bool.and_assoc]
+
+theorem open_inj (k k' : BK) (h : k'.open = k.open) : k' = k := by cases k <;> cases k' <;> first | rfl | (exact absurd h (by decide))
+
+/-- `_analyze_entry` at the start of a fragment that has a top-level group of the kind: `Block`, with the group's bracket
+    position and the entry begin behind the last top-level blank in front of it — whatever follows the fragment. -/
+theorem analyze_block (k : BK) (f i r : Frag) (hf : Frag.Simple f) (hh : hitK k f = some (i, r)) (pre rest : Str) :
+    analyzeEntry (pre ++ (f.render ++ rest)) [k.open, k.close] [] pre.length
+      = .ok (.block (ebOf (preK k f) pre.length pre.length) (pre.length + (preK k f).render.length)) := by
+  cases hr : f.render with
+  | nil =>
+    have : f = .nil := (render_eq_nil f).mp hr
+    subst this; simp [hitK] at hh
+  | cons c cs =>
+    have hc : c ≠ k.close := first_ne_close k f hf c cs hr
+    rw [List.cons_append, analyzeEntry_at, if_neg hc]
+    by_cases hco : c = k.open
+    · rw [if_pos hco]
+      cases f with
+      | nil => simp [Frag.render] at hr
+      | atom c' r' =>
+        rw [simple_atom] at hf
+        simp only [Frag.render, List.cons.injEq] at hr
+        exact absurd (hr.1.trans hco) (plain_ne_bk c' k hf.1).1
+      | str q b r' =>
+        simp only [Frag.render, List.cons.injEq] at hr
+        exact absurd (hr.1.trans hco) (quote_ne_bk q k).1
+      | group k' i' r' =>
+        simp only [Frag.render, List.cons.injEq] at hr
+        have := open_inj k k' (hr.1.trans hco)
+        subst this
+        simp [preK, ebOf, Frag.render]
+    · rw [if_neg hco]
+      have hs : c :: (cs ++ rest) = f.render ++ rest := by rw [hr]; simp
+      rw [hs]
+      have hfu : f.render.length + rest.length < (pre ++ (f.render ++ rest)).length + 1 := by simp; omega
+      exact (anaLoop_frag k f rest pre.length pre.length _ hf hfu).1 i r hh
+
+/-- … and at the start of a non-empty fragment without such a group, followed by the closer of the enclosing block:
+    an `Element` that ends at the closer. -/
+theorem analyze_element (k : BK) (f : Frag) (hf : Frag.Simple f) (hh : hitK k f = none) (pre post : Str)
+    (c : Char) (cs : Str) (hr : f.render = c :: cs) :
+    ∃ eb, analyzeEntry (pre ++ (f.render ++ k.close :: post)) [k.open, k.close] [] pre.length
+      = .ok (.element eb (pre.length + f.render.length)) := by
+  have T := otherTable k
+  have hc : c ≠ k.close := first_ne_close k f hf c cs hr
+  have hco : c ≠ k.open := by
+    intro hco
+    cases f with
+    | nil => simp [Frag.render] at hr
+    | atom c' r' =>
+      rw [simple_atom] at hf
+      simp only [Frag.render, List.cons.injEq] at hr
+      exact absurd (hr.1.trans hco) (plain_ne_bk c' k hf.1).1
+    | str q b r' =>
+      simp only [Frag.render, List.cons.injEq] at hr
+      exact absurd (hr.1.trans hco) (quote_ne_bk q k).1
+    | group k' i' r' =>
+      simp only [Frag.render, List.cons.injEq] at hr
+      have := open_inj k k' (hr.1.trans hco)
+      subst this
+      simp [hitK] at hh
+  have hT : pre ++ (f.render ++ k.close :: post) = pre ++ c :: (cs ++ k.close :: post) := by rw [hr]; simp
+  rw [hT, analyzeEntry_at, if_neg hc, if_neg hco]
+  have hs : c :: (cs ++ k.close :: post) = f.render ++ k.close :: post := by rw [hr]; simp
+  rw [hs]
+  have hfu : f.render.length + (k.close :: post).length < (pre ++ (f.render ++ k.close :: post)).length + 1 := by
+    simp; omega
+  obtain ⟨eb, fuel', hl, he⟩ := (anaLoop_frag k f (k.close :: post) pre.length pre.length _ hf hfu).2 hh
+  obtain ⟨x, rfl⟩ : ∃ x, fuel' = x + 1 := ⟨fuel' - 1, by simp at hl; omega⟩
+  refine ⟨eb, ?_⟩
+  rw [he]
+  simp [anaLoop, T.hclose, (open_ne_close k).symm, has]
+
+theorem analyze_frag (k : BK) (f : Frag) (hf : Frag.Simple f) (pre post : Str) (c : Char) (cs : Str) (hr : f.render = c :: cs) :
+    (∃ i r eb, hitK k f = some (i, r) ∧
+      analyzeEntry (pre ++ (f.render ++ k.close :: post)) [k.open, k.close] [] pre.length
+        = .ok (.block eb (pre.length + (preK k f).render.length))) ∨
+    (∃ eb, hitK k f = none ∧
+      analyzeEntry (pre ++ (f.render ++ k.close :: post)) [k.open, k.close] [] pre.length
+        = .ok (.element eb (pre.length + f.render.length))) := by
+  cases hh : hitK k f with
+  | some ir =>
+    obtain ⟨i, r⟩ := ir
+    exact Or.inl ⟨i, r, _, rfl, analyze_block k f i r hf hh pre _⟩
+  | none =>
+    obtain ⟨eb, he⟩ := analyze_element k f hf hh pre post c cs hr
+    exact Or.inr ⟨eb, rfl, he⟩
+
+theorem ebOf_boundary (a : Frag) : ∀ (p e : Nat),
+    ebOf a p e = e ∨ ∃ a1 a2 : Frag, a = a1 ++ a2 ∧ ebOf a p e = p + a1.render.length := by
+  induction a with
+  | nil => intro p e; exact Or.inl rfl
+  | atom c r ih =>
+    intro p e
+    simp only [ebOf]
+    rcases ih (p + 1) (if has [' ', '\n', '\t'] c then p + 1 else e) with h | ⟨r1, r2, hr, h⟩
+    · by_cases hb : has [' ', '\n', '\t'] c = true
+      · right
+        refine ⟨.atom c .nil, r, by simp, ?_⟩
+        rw [h, if_pos hb]; simp [Frag.render]
+      · left; rw [h, if_neg hb]
+    · right
+      exact ⟨.atom c r1, r2, by simp [hr], by rw [h]; simp [Frag.render]; omega⟩
+  | str q b r ih =>
+    intro p e
+    simp only [ebOf]
+    rcases ih (p + (b.length + 2)) e with h | ⟨r1, r2, hr, h⟩
+    · exact Or.inl h
+    · right
+      exact ⟨.str q b r1, r2, by simp [hr], by rw [h]; simp [Frag.render]; omega⟩
+  | group k' i r _ ih =>
+    intro p e
+    simp only [ebOf]
+    rcases ih (p + (i.render.length + 2)) e with h | ⟨r1, r2, hr, h⟩
+    · exact Or.inl h
+    · right
+      exact ⟨.group k' i r1, r2, by simp [hr], by rw [h]; simp [Frag.render]; omega⟩
+
+theorem append_nil_frag (f : Frag) : (f ++ Frag.nil : Frag) = f := by
+  induction f with
+  | nil => rfl
+  | atom c r ih => simp [ih]
+  | str q b r ih => simp [ih]
+  | group k i r _ ih => simp [ih]
+
+theorem hitK_preK (k : BK) (f : Frag) : hitK k (preK k f) = none := by
+  induction f with
+  | nil => rfl
+  | atom c r ih => simpa [preK, hitK] using ih
+  | str q b r ih => simpa [preK, hitK] using ih
+  | group k' i r _ ih =>
+    by_cases hk : k' = k
+    · simp [preK, hk, hitK]
+    · simpa [preK, hk, hitK] using ih
+
+theorem hitK_append (k : BK) (a g : Frag) (ha : hitK k a = none) : hitK k (a ++ g) = hitK k g ∧ preK k (a ++ g) = a ++ preK k g := by
+  induction a with
+  | nil => exact ⟨rfl, rfl⟩
+  | atom c r ih => simp only [hitK] at ha; simpa [hitK, preK] using ih ha
+  | str q b r ih => simp only [hitK] at ha; simpa [hitK, preK] using ih ha
+  | group k' i r _ ih =>
+    simp only [hitK] at ha
+    by_cases hk : k' = k
+    · simp [hk] at ha
+    · simp only [hk, if_false] at ha
+      simpa [hitK, preK, hk] using ih ha
+
+theorem hitK_append_left (k : BK) (a1 a2 : Frag) (h : hitK k (a1 ++ a2) = none) : hitK k a1 = none ∧ hitK k a2 = none := by
+  induction a1 with
+  | nil => exact ⟨rfl, h⟩
+  | atom c r ih => simpa [hitK] using ih (by simpa [hitK] using h)
+  | str q b r ih => simpa [hitK] using ih (by simpa [hitK] using h)
+  | group k' i r _ ih =>
+    by_cases hk : k' = k
+    · simp [hitK, hk] at h
+    · simpa [hitK, hk] using ih (by simpa [hitK, hk] using h)
+
+theorem simple_append_iff (f g : Frag) : Frag.Simple (f ++ g) ↔ Frag.Simple f ∧ Frag.Simple g := by
+  unfold Frag.Simple; rw [wf_append, Bool.and_eq_true]
+
+/-- Analysing again from the recorded entry begin finds the same block (this is what `parse_bracket` does, block.py:268). -/
+theorem reanalyze (k : BK) (f i r : Frag) (hf : Frag.Simple f) (hh : hitK k f = some (i, r)) (pre rest : Str) :
+    ∃ b, analyzeEntry (pre ++ (f.render ++ rest)) [k.open, k.close] [] (ebOf (preK k f) pre.length pre.length)
+      = .ok (.block b (pre.length + (preK k f).render.length)) := by
+  obtain ⟨hfeq, -, -⟩ := hitK_some k f i r hh
+  have hdec : ∃ a1 a2 : Frag, preK k f = a1 ++ a2 ∧ ebOf (preK k f) pre.length pre.length = pre.length + a1.render.length := by
+    rcases ebOf_boundary (preK k f) pre.length pre.length with h | h
+    · exact ⟨.nil, preK k f, rfl, by rw [h]; simp [Frag.render]⟩
+    · exact h
+  obtain ⟨a1, a2, ha, heb⟩ := hdec
+  have hn := hitK_append_left k a1 a2 (ha ▸ hitK_preK k f)
+  have hg := hitK_append k a2 (Frag.group k i r) hn.2
+  have hgh : hitK k (a2 ++ Frag.group k i r) = some (i, r) := by rw [hg.1]; simp [hitK]
+  have hgp : preK k (a2 ++ Frag.group k i r) = a2 := by rw [hg.2]; simp [preK, append_nil_frag]
+  have hfs : Frag.Simple (a2 ++ Frag.group k i r) := by
+    have : Frag.Simple (a1 ++ (a2 ++ Frag.group k i r)) := by rw [← append_assoc, ← ha, ← hfeq]; exact hf
+    exact ((simple_append_iff _ _).mp this).2
+  have := analyze_block k (a2 ++ Frag.group k i r) i r hfs hgh (pre ++ a1.render) rest
+  rw [hgp] at this
+  have hT : pre ++ (f.render ++ rest) = (pre ++ a1.render) ++ ((a2 ++ Frag.group k i r).render ++ rest) := by
+    rw [hfeq, ha, append_assoc, render_append]; simp
+  have hl : pre.length + a1.render.length = (pre ++ a1.render).length := by simp
+  have hlen : pre.length + (preK k f).render.length = (pre ++ a1.render).length + a2.render.length := by
+    rw [ha, render_append]; simp; omega
+  rw [hT, heb, hl, hlen]
+  exact ⟨_, this⟩
+
+/-! ### the entries `_parse` produces: which blocks, where -/
+
+/-- the top-level groups of kind `k` of a fragment that starts at position `p`: (position of the opening bracket, inside) -/
+def kGroupsAt (k : BK) : Frag → Nat → List (Nat × Frag)
+  | .nil, _ => []
+  | .atom _ r, p => kGroupsAt k r (p + 1)
+  | .str _ b r, p => kGroupsAt k r (p + (b.length + 2))
+  | .group k' i r, p => if k' = k then (p, i) :: kGroupsAt k r (p + (i.render.length + 2)) else kGroupsAt k r (p + (i.render.length + 2))
+
+theorem kGroupsAt_none (k : BK) (f : Frag) (h : hitK k f = none) : ∀ p, kGroupsAt k f p = [] := by
+  induction f with
+  | nil => intro p; rfl
+  | atom c r ih => intro p; exact ih h _
+  | str q b r ih => intro p; exact ih h _
+  | group k' i r _ ih =>
+    intro p
+    by_cases hk : k' = k
+    · simp [hitK, hk] at h
+    · simp only [hitK, if_neg hk] at h; simp only [kGroupsAt, if_neg hk]; exact ih h _
+
+theorem kGroupsAt_hit (k : BK) (f i r : Frag) (h : hitK k f = some (i, r)) : ∀ p,
+    kGroupsAt k f p = (p + (preK k f).render.length, i) ::
+      kGroupsAt k r (p + (preK k f).render.length + (i.render.length + 2)) := by
+  induction f with
+  | nil => simp [hitK] at h
+  | atom c r' ih => intro p; simp only [kGroupsAt, preK, Frag.render, List.length_cons, ih h (p + 1)]; congr 2 <;> omega
+  | str q b r' ih =>
+    intro p
+    simp only [kGroupsAt, preK, Frag.render, List.length_cons, List.length_append, ih h (p + (b.length + 2))]
+    congr 2 <;> omega
+  | group k' i' r' _ ih =>
+    intro p
+    by_cases hk : k' = k
+    · simp only [hitK, if_pos hk, Option.some.injEq, Prod.mk.injEq] at h
+      obtain ⟨rfl, rfl⟩ := h
+      simp [kGroupsAt, preK, hk, Frag.render]
+    · simp only [hitK, if_neg hk] at h
+      simp only [kGroupsAt, preK, if_neg hk, Frag.render, List.length_cons, List.length_append,
+        ih h (p + (i'.render.length + 2))]
+      congr 2 <;> omega
+
+/-- pointwise relation between two lists of the same length -/
+inductive All2 {α β : Type} (R : α → β → Prop) : List α → List β → Prop
+  | nil : All2 R [] []
+  | cons {a : α} {b : β} {as : List α} {bs : List β} : R a b → All2 R as bs → All2 R (a :: as) (b :: bs)
+
+def isBlock (e : Entry) : Bool := decide (e.kind = .Block)
+
+/-- the entry `e` is the block of the group `g = (position of its opening bracket, inside)`: analysing from its begin finds
+    that bracket, and its end is the position behind the closing bracket -/
+def BlockAt (T : Str) (k : BK) (e : Entry) (g : Nat × Frag) : Prop :=
+  (∃ b, analyzeEntry T [k.open, k.close] [] e.begin = .ok (.block b g.1)) ∧ e.end_ = g.1 + g.2.render.length + 2
+
+/-- the `Block` entries of `es` are, in order, the blocks of the groups `gs` — and so on for their sub-entries, `n` levels deep -/
+def Good (T : Str) (k : BK) : Nat → List Entry → List (Nat × Frag) → Prop
+  | 0, es, gs => All2 (BlockAt T k) (es.filter isBlock) gs
+  | n + 1, es, gs =>
+    All2 (fun e g => BlockAt T k e g ∧ Good T k n e.entries (kGroupsAt k g.2 (g.1 + 1))) (es.filter isBlock) gs
+
+/-- entries that are not blocks have no sub-entries -/
+def Leafy (es : List Entry) : Prop := ∀ e ∈ es, isBlock e = false → e.entries = []
+
+theorem good_nil (T : Str) (k : BK) (n : Nat) : Good T k n [] [] := by
+  cases n <;> exact All2.nil
+
+theorem good_element (T : Str) (k : BK) (e : Entry) (es : List Entry) (gs : List (Nat × Frag)) (he : isBlock e = false)
+    (h : ∀ n, Good T k n es gs) : ∀ n, Good T k n (e :: es) gs := by
+  intro n
+  have := h n
+  cases n <;> simpa [Good, List.filter, he] using this
+
+theorem good_block (T : Str) (k : BK) (e : Entry) (g : Nat × Frag) (es : List Entry) (gs : List (Nat × Frag))
+    (he : isBlock e = true) (hb : BlockAt T k e g) (hsub : ∀ n, Good T k n e.entries (kGroupsAt k g.2 (g.1 + 1)))
+    (h : ∀ n, Good T k n es gs) : ∀ n, Good T k n (e :: es) (g :: gs) := by
+  intro n
+  have := h n
+  cases n with
+  | zero => simp only [Good, List.filter, he]; exact All2.cons hb this
+  | succ m => simp only [Good, List.filter, he]; exact All2.cons ⟨hb, hsub m⟩ this
+
+/-- what `_parse` started at a fragment that is followed by the closing bracket of the enclosing block returns: the
+    position of that bracket, and entries whose blocks are exactly the top-level groups of the kind -/
 def ParseOK (k : BK) (f : Frag) : Prop :=
   ∀ (pre post : Str) (depth : Nat) (acc : List Entry) (fuel : Nat), 2 * f.render.length + 2 ≤ fuel →
-    ∃ acc', parseLoop (pre ++ (f.render ++ k.close :: post)) [k.open, k.close] [] fuel pre.length depth acc
-      = .ok (pre.length + f.render.length, acc')
+    ∃ new, parseLoop (pre ++ (f.render ++ k.close :: post)) [k.open, k.close] [] fuel pre.length depth acc
+        = .ok (pre.length + f.render.length, acc ++ new) ∧
+      (∀ n, Good (pre ++ (f.render ++ k.close :: post)) k n new (kGroupsAt k f pre.length)) ∧ Leafy new
 
-/-- … and `_parse_block` started behind the opening bracket: the position behind the closing bracket -/
+/-- … and `_parse_block` started behind the opening bracket: the position behind the closing bracket, same entries -/
 def BlockOK (k : BK) (f : Frag) : Prop :=
   ∀ (pre post : Str) (depth : Nat) (acc : List Entry) (fuel : Nat), 2 * f.render.length + 3 ≤ fuel →
-    ∃ acc', blockLoop (pre ++ (f.render ++ k.close :: post)) [k.open, k.close] [] fuel pre.length depth acc
-      = .ok (pre.length + f.render.length + 1, acc')
+    ∃ new, blockLoop (pre ++ (f.render ++ k.close :: post)) [k.open, k.close] [] fuel pre.length depth acc
+        = .ok (pre.length + f.render.length + 1, acc ++ new) ∧
+      (∀ n, Good (pre ++ (f.render ++ k.close :: post)) k n new (kGroupsAt k f pre.length)) ∧ Leafy new
 
 theorem blockOK_of_parseOK (k : BK) (f : Frag) (hf : Frag.Simple f) (hP : ParseOK k f) : BlockOK k f := by
   intro pre post depth acc fuel hfu
@@ -322,18 +603,20 @@ theorem blockOK_of_parseOK (k : BK) (f : Frag) (hf : Frag.Simple f) (hP : ParseO
   have hb1 : charAt [k.open, k.close] 1 = .ok k.close := rfl
   cases hr : f.render with
   | nil =>
+    have hfn : f = .nil := (render_eq_nil f).mp hr
     have hlt : pre.length < (pre ++ ([] ++ k.close :: post)).length := by simp
     rw [blockLoop, if_pos hlt]
-    simp [charAt_mid, hb1, bind, Except.bind]
+    refine ⟨[], by simp [charAt_mid, hb1, bind, Except.bind], ?_, fun e he => by simp at he⟩
+    subst hfn; intro n; exact good_nil _ _ _
   | cons c cs =>
     have hc : c ≠ k.close := first_ne_close k f hf c cs hr
     have hlt : pre.length < (pre ++ (c :: cs ++ k.close :: post)).length := by simp
-    obtain ⟨ins, hins⟩ := hP pre post (depth + 1) [] m (by omega)
-    rw [hr] at hins
+    obtain ⟨ins, hins, hgood, hleaf⟩ := hP pre post (depth + 1) [] m (by omega)
+    rw [hr] at hins hgood
     obtain ⟨m', rfl⟩ : ∃ m', m = m' + 1 := ⟨m - 1, by omega⟩
     rw [blockLoop, if_pos hlt]
     simp only [List.cons_append, charAt_mid, hb1, bind, Except.bind, hc, if_false]
-    simp only [List.cons_append] at hins
+    simp only [List.cons_append, List.nil_append] at hins
     rw [hins]
     simp only []
     -- second iteration: the closing bracket
@@ -344,65 +627,7 @@ theorem blockOK_of_parseOK (k : BK) (f : Frag) (hf : Frag.Simple f) (hP : ParseO
     have hlt2 : pre.length + (c :: cs).length < (pre ++ c :: (cs ++ k.close :: post)).length := by simp
     rw [blockLoop, if_pos hlt2]
     simp only [hch, hb1, bind, Except.bind, if_true]
-    exact ⟨_, rfl⟩
-
-
-theorem wf_append (p : Char → Bool) (f g : Frag) : Frag.wf p (f ++ g) = (Frag.wf p f && Frag.wf p g) := by
-  induction f with
-  | nil => simp [Frag.wf]
-  | atom c r ih => simp [Frag.wf, ih, Bool.and_assoc]
-  | str q b r ih => simp [Frag.wf, ih, Bool.and_assoc]
-  | group k i r _ ih => simp [Frag.wf, ih, Bool.and_assoc]
-
-theorem open_inj (k k' : BK) (h : k'.open = k.open) : k' = k := by cases k <;> cases k' <;> first | rfl | (exact absurd h (by decide))
-
-/-- the first analysis at the start of a non-empty fragment that is followed by the enclosing closer: either a block of
-    the kind (then the fragment is `a ++ group k i r`) or an element that ends at the closer -/
-theorem analyze_frag (k : BK) (f : Frag) (hf : Frag.Simple f) (pre post : Str) (c : Char) (cs : Str) (hr : f.render = c :: cs) :
-    (∃ i r eb, hitK k f = some (i, r) ∧
-      analyzeEntry (pre ++ (f.render ++ k.close :: post)) [k.open, k.close] [] pre.length
-        = .ok (.block eb (pre.length + (preK k f).render.length))) ∨
-    (∃ eb, hitK k f = none ∧
-      analyzeEntry (pre ++ (f.render ++ k.close :: post)) [k.open, k.close] [] pre.length
-        = .ok (.element eb (pre.length + f.render.length))) := by
-  have T := otherTable k
-  have hc : c ≠ k.close := first_ne_close k f hf c cs hr
-  have hT : pre ++ (f.render ++ k.close :: post) = pre ++ c :: (cs ++ k.close :: post) := by rw [hr]; simp
-  rw [hT, analyzeEntry_at, if_neg hc]
-  by_cases hco : c = k.open
-  · left
-    rw [if_pos hco]
-    cases f with
-    | nil => simp [Frag.render] at hr
-    | atom c' r =>
-      rw [simple_atom] at hf
-      simp only [Frag.render, List.cons.injEq] at hr
-      exact absurd (hr.1.trans hco) (plain_ne_bk c' k hf.1).1
-    | str q b r =>
-      simp only [Frag.render, List.cons.injEq] at hr
-      exact absurd (hr.1.trans hco) (quote_ne_bk q k).1
-    | group k' i r =>
-      simp only [Frag.render, List.cons.injEq] at hr
-      have := open_inj k k' (hr.1.trans hco)
-      subst this
-      exact ⟨i, r, pre.length, by simp [hitK], by simp [preK, Frag.render]⟩
-  · rw [if_neg hco]
-    have hs : c :: (cs ++ k.close :: post) = f.render ++ k.close :: post := by rw [hr]; simp
-    rw [hs]
-    have hfu : f.render.length + (k.close :: post).length < (pre ++ (f.render ++ k.close :: post)).length + 1 := by
-      simp; omega
-    obtain ⟨h1, h2⟩ := anaLoop_frag k f (k.close :: post) pre.length pre.length _ hf hfu
-    cases hh : hitK k f with
-    | some ir =>
-      obtain ⟨i, r⟩ := ir
-      obtain ⟨eb, he⟩ := h1 i r hh
-      exact Or.inl ⟨i, r, eb, rfl, he⟩
-    | none =>
-      obtain ⟨eb, fuel', hl, he⟩ := h2 hh
-      obtain ⟨x, rfl⟩ : ∃ x, fuel' = x + 1 := ⟨fuel' - 1, by simp at hl; omega⟩
-      refine Or.inr ⟨eb, rfl, ?_⟩
-      rw [he]
-      simp [anaLoop, T.hclose, (open_ne_close k).symm, has]
+    exact ⟨ins, rfl, by simpa using hgood, hleaf⟩
 
 theorem parseOK (k : BK) : ∀ (n : Nat) (f : Frag), f.render.length = n → Frag.Simple f → ParseOK k f := by
   intro n
@@ -416,57 +641,80 @@ theorem parseOK (k : BK) : ∀ (n : Nat) (f : Frag), f.render.length = n → Fra
     have hlt : pre.length < (pre ++ (f.render ++ k.close :: post)).length := by simp; omega
     cases hr : f.render with
     | nil =>
+      have hfn : f = .nil := (render_eq_nil f).mp hr
       rw [parseLoop, if_pos (by simp)]
       simp only [List.nil_append, analyzeEntry_at, if_neg (open_ne_close k).symm, if_true, bind, Except.bind]
-      exact ⟨acc, rfl⟩
+      refine ⟨[], by simp, ?_, fun e he => by simp at he⟩
+      subst hfn; intro n; exact good_nil _ _ _
     | cons c cs =>
       rw [← hr, parseLoop, if_pos hlt]
-      rcases analyze_frag k f hf pre post c cs hr with ⟨i, r, eb, hh, ha⟩ | ⟨eb, hh, ha⟩
-      · -- a block: `_parse_block` over its inside, then on with the rest
+      cases hh : hitK k f with
+      | some ir =>
+        -- a block: `_parse_block` over its inside, then on with the rest
+        obtain ⟨i, r⟩ := ir
+        have ha := analyze_block k f i r hf hh pre (k.close :: post)
+        obtain ⟨bre, hre⟩ := reanalyze k f i r hf hh pre (k.close :: post)
+        have hkg := kGroupsAt_hit k f i r hh pre.length
         obtain ⟨hfeq, hli, hlr⟩ := hitK_some k f i r hh
-        generalize hadef : preK k f = a at ha hfeq
+        generalize hebdef : ebOf (preK k f) pre.length pre.length = eb at ha hre
+        generalize hadef : preK k f = a at ha hfeq hre hkg
         have hsi : Frag.Simple i ∧ Frag.Simple r := by
           have := hf; rw [hfeq] at this
-          have h2 : Frag.Simple (Frag.group k i r) := by
-            unfold Frag.Simple at this ⊢
-            rw [wf_append, Bool.and_eq_true] at this
-            exact this.2
-          exact (simple_group k i r).mp h2
+          exact (simple_group k i r).mp ((simple_append_iff _ _).mp this).2
         have hB : BlockOK k i := blockOK_of_parseOK k i hsi.1 (IH i hli hsi.1)
         have hPr : ParseOK k r := IH r hlr hsi.2
         have hfr : f.render = a.render ++ k.open :: (i.render ++ k.close :: r.render) := by
           rw [hfeq, render_append]; simp [Frag.render]
         have hflen : f.render.length = a.render.length + i.render.length + r.render.length + 2 := by
           rw [hfr]; simp; omega
-        -- the text seen from behind the opening bracket
         have e1 : pre ++ (f.render ++ k.close :: post)
             = (pre ++ a.render ++ [k.open]) ++ (i.render ++ k.close :: (r.render ++ k.close :: post)) := by
           rw [hfr]; simp
         have l1 : pre.length + a.render.length + 1 = (pre ++ a.render ++ [k.open]).length := by simp; omega
-        obtain ⟨ins, hins⟩ := hB (pre ++ a.render ++ [k.open]) (r.render ++ k.close :: post) depth [] m (by omega)
-        rw [← e1, ← l1] at hins
-        -- … and from behind the closing bracket of the block
+        obtain ⟨ins, hins, hgi, hli'⟩ := hB (pre ++ a.render ++ [k.open]) (r.render ++ k.close :: post) depth [] m (by omega)
+        rw [← e1, ← l1] at hins hgi
         have e2 : pre ++ (f.render ++ k.close :: post)
             = (pre ++ a.render ++ k.open :: (i.render ++ [k.close])) ++ (r.render ++ k.close :: post) := by
           rw [hfr]; simp
         have l2 : pre.length + a.render.length + 1 + i.render.length + 1
             = (pre ++ a.render ++ k.open :: (i.render ++ [k.close])).length := by simp; omega
-        obtain ⟨acc', hacc⟩ := hPr (pre ++ a.render ++ k.open :: (i.render ++ [k.close])) post depth
+        obtain ⟨newr, hacc, hgr, hlr'⟩ := hPr (pre ++ a.render ++ k.open :: (i.render ++ [k.close])) post depth
           (acc ++ [Entry.mk eb (pre.length + a.render.length + 1 + i.render.length + 1) depth .Block ins]) m (by omega)
-        rw [← e2, ← l2] at hacc
+        rw [← e2, ← l2] at hacc hgr
+        simp only [List.nil_append] at hins
         simp only [ha, bind, Except.bind, hins, hacc]
-        exact ⟨acc', by congr 2; omega⟩
-      · -- an element that ends at the closing bracket, then `End`
+        refine ⟨Entry.mk eb (pre.length + a.render.length + 1 + i.render.length + 1) depth .Block ins :: newr, ?_, ?_, ?_⟩
+        · simp only [List.append_assoc, List.singleton_append]; congr 2; omega
+        · rw [hkg]
+          have hpos : pre.length + a.render.length + (i.render.length + 2) = pre.length + a.render.length + 1 + i.render.length + 1 := by omega
+          rw [hpos]
+          exact good_block _ k _ (pre.length + a.render.length, i) newr _ rfl
+            ⟨⟨bre, hre⟩, by simp only [Entry.end_]; omega⟩ hgi hgr
+        · intro e he hb
+          simp only [List.mem_cons] at he
+          rcases he with rfl | he
+          · simp [isBlock, Entry.kind] at hb
+          · exact hlr' e he hb
+      | none =>
+        -- an element that ends at the closing bracket, then `End`
+        obtain ⟨eb, ha⟩ := analyze_element k f hf hh pre post c cs hr
         have hP0 : ParseOK k .nil := IH .nil (by rw [hr]; simp [Frag.render]) simple_nil
         have e3 : pre ++ (f.render ++ k.close :: post) = (pre ++ f.render) ++ (Frag.nil.render ++ k.close :: post) := by
           simp [Frag.render]
         have l3 : pre.length + f.render.length = (pre ++ f.render).length := by simp
-        obtain ⟨acc', hacc⟩ := hP0 (pre ++ f.render) post depth
-          (acc ++ [Entry.mk eb (pre.length + f.render.length) depth .Element []]) m (by simp only [Frag.render, List.length_nil]; rw [hr] at hfu; simp only [List.length_cons] at hfu; omega)
-        rw [← e3, ← l3] at hacc
+        obtain ⟨new0, hacc, hg0, hl0⟩ := hP0 (pre ++ f.render) post depth
+          (acc ++ [Entry.mk eb (pre.length + f.render.length) depth .Element []]) m
+          (by simp only [Frag.render, List.length_nil]; rw [hr] at hfu; simp only [List.length_cons] at hfu; omega)
+        rw [← e3, ← l3] at hacc hg0
         simp only [ha, bind, Except.bind, hacc]
-        exact ⟨acc', by simp [Frag.render, hr]⟩
-
+        refine ⟨Entry.mk eb (pre.length + f.render.length) depth .Element [] :: new0, by simp [Frag.render], ?_, ?_⟩
+        · rw [kGroupsAt_none k f hh]
+          exact good_element _ k _ new0 [] rfl (by simpa [kGroupsAt] using hg0)
+        · intro e he hb
+          simp only [List.mem_cons] at he
+          rcases he with rfl | he
+          · rfl
+          · exact hl0 e he hb
 
 /-! ### `parse_bracket(name + group + tail)` -/
 
@@ -545,53 +793,205 @@ theorem analyze_name (k : BK) (name rest : Str)
     have h2 := anaLoop_name k (c :: cs) rest 0 0 ((c :: (cs ++ k.open :: rest)).length + 1) hname (by simp; omega)
     simpa using h2
 
-theorem bracketStep_prefix (text brackets : Str) (blocks bs : List Str) (e : Entry)
-    (h : bracketStep text brackets blocks e = .ok bs) : ∃ t, bs = blocks ++ t := by
-  unfold bracketStep at h
-  split at h
-  · cases ha : analyzeEntry text brackets [] e.begin with
-    | error err => rw [ha] at h; cases h
-    | ok a =>
-      rw [ha] at h
-      cases a <;> (simp only [Except.bind] at h; injection h with h; exact ⟨_, h.symm⟩)
-  · injection h with h; exact ⟨[], by simp [h]⟩
 
-theorem foldlM_bracketStep_head (text brackets : Str) (x : Str) : ∀ (l : List Entry) (acc bs : List Str),
-    acc.head? = some x → l.foldlM (bracketStep text brackets) acc = .ok bs → bs.head? = some x := by
-  intro l
-  induction l with
-  | nil => intro acc bs ha h; simp only [List.foldlM, pure, Except.pure] at h; injection h with h; rw [← h]; exact ha
-  | cons e l ih =>
-    intro acc bs ha h
-    simp only [List.foldlM, bind, Except.bind] at h
-    cases hs : bracketStep text brackets acc e with
-    | error err => rw [hs] at h; cases h
-    | ok acc' =>
-      rw [hs] at h
-      obtain ⟨t, rfl⟩ := bracketStep_prefix text brackets acc acc' e hs
-      refine ih (acc ++ t) bs ?_ h
-      cases acc with
-      | nil => simp at ha
-      | cons a as => simpa using ha
+/-- the text of a group -/
+def groupText (k : BK) (i : Frag) : Str := k.open :: (i.render ++ [k.close])
 
-/-- The first block `parse_bracket` returns for `name + group + tail` is the whole group — for every fragment inside the
-    group (nested groups of the same and of other kinds, simple strings with any content). -/
-theorem parseBracket_first (k : BK) (name tail : Str) (inner : Frag) (blocks : List Str)
+/-- the insides of the top-level groups of kind `k` (not those inside groups of another kind or strings), in order -/
+def kGroups (k : BK) : Frag → List Frag
+  | .nil => []
+  | .atom _ r => kGroups k r
+  | .str _ _ r => kGroups k r
+  | .group k' i r => if k' = k then i :: kGroups k r else kGroups k r
+
+theorem kGroupsAt_snd (k : BK) (f : Frag) : ∀ p, (kGroupsAt k f p).map Prod.snd = kGroups k f := by
+  induction f with
+  | nil => intro p; rfl
+  | atom c r ih => intro p; exact ih _
+  | str q b r ih => intro p; exact ih _
+  | group k' i r _ ih =>
+    intro p
+    by_cases hk : k' = k <;> simp [kGroupsAt, kGroups, hk, ih]
+
+/-- what `parse_bracket` returns for a group with the inside `inner`: the group, then for every top-level group of the kind
+    inside it that group followed by the top-level groups of the kind inside *it* (`Entry.unders` is two levels deep) -/
+def bracketSpec (k : BK) (inner : Frag) : List Str :=
+  groupText k inner :: (kGroups k inner).flatMap fun i => groupText k i :: (kGroups k i).map (groupText k)
+
+theorem simple_kGroups (k : BK) (f : Frag) (hf : Frag.Simple f) : ∀ i ∈ kGroups k f, Frag.Simple i := by
+  induction f with
+  | nil => intro i hi; simp [kGroups] at hi
+  | atom c r ih => rw [simple_atom] at hf; exact ih hf.2
+  | str q b r ih => rw [simple_str] at hf; exact ih hf.2
+  | group k' i' r _ ih =>
+    rw [simple_group] at hf
+    intro i hi
+    by_cases hk : k' = k
+    · simp only [kGroups, if_pos hk, List.mem_cons] at hi
+      rcases hi with rfl | hi
+      · exact hf.1
+      · exact ih hf.2 i hi
+    · simp only [kGroups, if_neg hk] at hi
+      exact ih hf.2 i hi
+
+theorem bracketSpec_balanced (k : BK) (inner : Frag) (hi : Frag.Simple inner) :
+    ∀ b ∈ bracketSpec k inner, ∃ g : Frag, Frag.Simple g ∧ b = k.open :: (g.render ++ [k.close]) := by
+  intro b hb
+  simp only [bracketSpec, List.mem_cons, List.mem_flatMap, List.mem_map] at hb
+  rcases hb with rfl | ⟨i, hi1, rfl | ⟨j, hj, rfl⟩⟩
+  · exact ⟨inner, hi, rfl⟩
+  · exact ⟨i, simple_kGroups k inner hi i hi1, rfl⟩
+  · exact ⟨j, simple_kGroups k i (simple_kGroups k inner hi i hi1) j hj, rfl⟩
+
+/-- every group of kind `k` of a fragment, at every depth, in pre-order -/
+def allGroupTexts (k : BK) : Frag → List Str
+  | .nil => []
+  | .atom _ r => allGroupTexts k r
+  | .str _ _ r => allGroupTexts k r
+  | .group k' i r => (if k' = k then [groupText k i] else []) ++ allGroupTexts k i ++ allGroupTexts k r
+
+/-- the group `g.2` of kind `k` stands in `T` with its opening bracket at `g.1` -/
+def Sits (T : Str) (k : BK) (g : Nat × Frag) : Prop :=
+  ∃ pre post, T = pre ++ (groupText k g.2 ++ post) ∧ pre.length = g.1
+
+theorem kGroupsAt_sits (k : BK) (f : Frag) : ∀ (pre rest : Str),
+    ∀ g ∈ kGroupsAt k f pre.length, Sits (pre ++ (f.render ++ rest)) k g := by
+  induction f with
+  | nil => intro pre rest g hg; simp [kGroupsAt] at hg
+  | atom c r ih =>
+    intro pre rest g hg
+    have := ih (pre ++ [c]) rest g (by simpa [kGroupsAt] using hg)
+    simpa [Frag.render] using this
+  | str q b r ih =>
+    intro pre rest g hg
+    have := ih (pre ++ q.ch :: (b ++ [q.ch])) rest g (by
+      have e : (pre ++ q.ch :: (b ++ [q.ch])).length = pre.length + (b.length + 2) := by simp
+      rw [e]; simpa [kGroupsAt] using hg)
+    simpa [Frag.render] using this
+  | group k' i r _ ih =>
+    intro pre rest g hg
+    have e : (pre ++ k'.open :: (i.render ++ [k'.close])).length = pre.length + (i.render.length + 2) := by simp
+    have hrest : ∀ g ∈ kGroupsAt k r (pre.length + (i.render.length + 2)), Sits (pre ++ ((Frag.group k' i r).render ++ rest)) k g := by
+      intro g hg
+      have := ih (pre ++ k'.open :: (i.render ++ [k'.close])) rest g (by rw [e]; exact hg)
+      simpa [Frag.render] using this
+    by_cases hk : k' = k
+    · subst hk
+      simp only [kGroupsAt, if_true, List.mem_cons] at hg
+      rcases hg with rfl | hg
+      · exact ⟨pre, r.render ++ rest, by simp [groupText, Frag.render], rfl⟩
+      · exact hrest g hg
+    · simp only [kGroupsAt, if_neg hk] at hg
+      exact hrest g hg
+
+theorem sits_inner (T : Str) (k : BK) (g : Nat × Frag) (h : Sits T k g) : ∀ g' ∈ kGroupsAt k g.2 (g.1 + 1), Sits T k g' := by
+  obtain ⟨pre, post, hT, hl⟩ := h
+  intro g' hg'
+  have := kGroupsAt_sits k g.2 (pre ++ [k.open]) (k.close :: post) g' (by simpa [hl] using hg')
+  rw [hT]; simpa [groupText] using this
+
+theorem sits_slice (T : Str) (k : BK) (g : Nat × Frag) (h : Sits T k g) :
+    slice T g.1 (g.1 + g.2.render.length + 2) = groupText k g.2 := by
+  obtain ⟨pre, post, hT, hl⟩ := h
+  have e : g.1 + g.2.render.length + 2 = (pre ++ groupText k g.2).length := by simp [groupText, hl]; omega
+  rw [hT, ← List.append_assoc, slice, e, List.take_left, ← hl, List.drop_left]
+
+theorem step_block (T : Str) (k : BK) (acc : List Str) (e : Entry) (g : Nat × Frag) (he : isBlock e = true)
+    (hb : BlockAt T k e g) (hs : Sits T k g) :
+    bracketStep T [k.open, k.close] acc e = .ok (acc ++ [groupText k g.2]) := by
+  obtain ⟨⟨b, ha⟩, hend⟩ := hb
+  have hk : e.kind = .Block := by simpa [isBlock] using he
+  simp only [bracketStep, hk, if_true, ha, Except.bind, hend, sits_slice T k g hs]
+
+theorem step_other (T brackets : Str) (acc : List Str) (e : Entry) (he : isBlock e = false) :
+    bracketStep T brackets acc e = .ok acc := by
+  have hk : ¬ e.kind = .Block := by simpa [isBlock] using he
+  simp [bracketStep, hk]
+
+theorem foldlM_cons_ok {α β : Type} (f : β → α → Except Err β) (a : α) (l : List α) (b b' : β) (h : f b a = .ok b') :
+    (a :: l).foldlM f b = l.foldlM f b' := by
+  simp [List.foldlM, h, bind, Except.bind]
+
+theorem fold0 (T : Str) (k : BK) : ∀ (es : List Entry) (gs : List (Nat × Frag)) (acc : List Str),
+    Good T k 0 es gs → (∀ g ∈ gs, Sits T k g) →
+    es.foldlM (bracketStep T [k.open, k.close]) acc = .ok (acc ++ gs.map fun g => groupText k g.2) := by
+  intro es
+  induction es with
+  | nil =>
+    intro gs acc hg _
+    simp only [Good, List.filter] at hg
+    cases hg; simp [List.foldlM, pure, Except.pure]
+  | cons e es ih =>
+    intro gs acc hg hs
+    by_cases he : isBlock e = true
+    · simp only [Good, List.filter, he] at hg
+      cases hg with
+      | cons hb hrest =>
+        rename_i g gs'
+        rw [foldlM_cons_ok _ e es acc _ (step_block T k acc e g he hb (hs g (by simp))),
+          ih gs' _ hrest (fun x hx => hs x (by simp [hx]))]
+        simp
+    · have he' : isBlock e = false := by simpa using he
+      simp only [Good, List.filter, he'] at hg
+      rw [foldlM_cons_ok _ e es acc _ (step_other T _ acc e he'), ih gs acc hg hs]
+
+theorem foldlM_append_ok {α β : Type} (f : β → α → Except Err β) (l1 l2 : List α) (b b' : β)
+    (h : l1.foldlM f b = .ok b') : (l1 ++ l2).foldlM f b = l2.foldlM f b' := by
+  rw [List.foldlM_append, h]; rfl
+
+theorem fold1 (T : Str) (k : BK) : ∀ (es : List Entry) (gs : List (Nat × Frag)) (acc : List Str),
+    Good T k 1 es gs → Leafy es → (∀ g ∈ gs, Sits T k g) →
+    (es.flatMap fun x => x :: x.entries).foldlM (bracketStep T [k.open, k.close]) acc
+      = .ok (acc ++ gs.flatMap fun g => groupText k g.2 :: (kGroupsAt k g.2 (g.1 + 1)).map fun g' => groupText k g'.2) := by
+  intro es
+  induction es with
+  | nil =>
+    intro gs acc hg _ _
+    simp only [Good, List.filter] at hg
+    cases hg; simp [pure, Except.pure]
+  | cons e es ih =>
+    intro gs acc hg hl hs
+    have hl' : Leafy es := fun x hx hb => hl x (by simp [hx]) hb
+    simp only [List.flatMap_cons]
+    by_cases he : isBlock e = true
+    · simp only [Good, List.filter, he] at hg
+      cases hg with
+      | cons hb hrest =>
+        rename_i g gs'
+        have hsg := hs g (by simp)
+        have h1 : (e :: e.entries).foldlM (bracketStep T [k.open, k.close]) acc
+            = .ok (acc ++ [groupText k g.2] ++ (kGroupsAt k g.2 (g.1 + 1)).map fun g' => groupText k g'.2) := by
+          rw [foldlM_cons_ok _ e e.entries acc _ (step_block T k acc e g he hb.1 hsg)]
+          exact fold0 T k e.entries _ _ hb.2 (sits_inner T k g hsg)
+        rw [foldlM_append_ok _ _ _ acc _ h1, ih gs' _ hrest hl' (fun x hx => hs x (by simp [hx]))]
+        simp
+    · have he' : isBlock e = false := by simpa using he
+      simp only [Good, List.filter, he'] at hg
+      have hnil := hl e (by simp) he'
+      have h1 : (e :: e.entries).foldlM (bracketStep T [k.open, k.close]) acc = .ok acc := by
+        rw [foldlM_cons_ok _ e e.entries acc _ (step_other T _ acc e he'), hnil]; rfl
+      rw [foldlM_append_ok _ _ _ acc _ h1, ih gs acc hg hl' hs]
+
+
+/-- `parse(name + group + tail)`: the root entry is the block of the group, and its entries are the blocks of the
+    groups inside (all levels). -/
+theorem parse_root (k : BK) (name tail : Str) (inner : Frag)
     (hname : ∀ c ∈ name, has Frag.special c = false ∧ has [' ', '\n', '\t'] c = false)
-    (htail : ∀ c ∈ tail, has Frag.special c = false) (hi : Frag.Simple inner)
-    (h : parseBracket (name ++ k.open :: (inner.render ++ k.close :: tail)) [k.open, k.close] = .ok blocks) :
-    blocks.head? = some (k.open :: (inner.render ++ [k.close])) := by
-  generalize hT : name ++ k.open :: (inner.render ++ k.close :: tail) = T at h
+    (htail : ∀ c ∈ tail, has Frag.special c = false) (hi : Frag.Simple inner) :
+    ∃ ins, parse (name ++ k.open :: (inner.render ++ k.close :: tail)) [k.open, k.close] []
+        = .ok (Entry.mk 0 (name.length + 1 + inner.render.length + 1) 0 .Block ins) ∧
+      (∀ n, Good (name ++ k.open :: (inner.render ++ k.close :: tail)) k n ins (kGroupsAt k inner (name.length + 1))) ∧
+      Leafy ins := by
+  generalize hT : name ++ k.open :: (inner.render ++ k.close :: tail) = T
   have hana : analyzeEntry T [k.open, k.close] [] 0 = .ok (.block 0 name.length) := by
     rw [← hT]; exact analyze_name k name _ hname
-  -- `_parse_block` over the inside of the group
   have hB : BlockOK k inner := blockOK_of_parseOK k inner hi (parseOK k _ inner rfl hi)
   have e1 : T = (name ++ [k.open]) ++ (inner.render ++ k.close :: tail) := by rw [← hT]; simp
   have l1 : name.length + 1 = (name ++ [k.open]).length := by simp
   have hlen : T.length = name.length + inner.render.length + tail.length + 2 := by rw [← hT]; simp; omega
-  obtain ⟨ins, hins⟩ := hB (name ++ [k.open]) tail 0 [] (parseFuel T - 1) (by unfold parseFuel; omega)
-  rw [← e1, ← l1] at hins
-  -- `_parse` over the tail
+  obtain ⟨ins, hins, hgood, hleaf⟩ := hB (name ++ [k.open]) tail 0 [] (parseFuel T - 1) (by unfold parseFuel; omega)
+  rw [← e1, ← l1] at hins hgood
+  simp only [List.nil_append] at hins
   have e2 : T = (name ++ k.open :: (inner.render ++ [k.close])) ++ tail := by rw [← hT]; simp
   have l2 : name.length + 1 + inner.render.length + 1 = (name ++ k.open :: (inner.render ++ [k.close])).length := by
     simp; omega
@@ -599,26 +999,42 @@ theorem parseBracket_first (k : BK) (name tail : Str) (inner : Frag) (blocks : L
     ([] ++ [Entry.mk 0 (name.length + 1 + inner.render.length + 1) 0 .Block ins]) (parseFuel T - 1)
     (by unfold parseFuel; omega) htail
   rw [← e2, ← l2] at hj
-  have hparse : parse T [k.open, k.close] [] = .ok (Entry.mk 0 (name.length + 1 + inner.render.length + 1) 0 .Block ins) := by
-    have hf : parseFuel T = (parseFuel T - 1) + 1 := by unfold parseFuel; omega
-    have hlt : 0 < T.length := by omega
-    unfold parse
-    rw [hf, parseLoop, if_pos hlt]
-    simp only [hana, bind, Except.bind, hins, hj]
-    rfl
-  unfold parseBracket at h
-  rw [hparse] at h
-  simp only [Except.bind, List.foldlM, bind] at h
+  refine ⟨ins, ?_, hgood, hleaf⟩
+  have hf : parseFuel T = (parseFuel T - 1) + 1 := by unfold parseFuel; omega
+  have hlt : 0 < T.length := by omega
+  unfold parse
+  rw [hf, parseLoop, if_pos hlt]
+  simp only [hana, bind, Except.bind, hins, hj]
+  rfl
+
+/-- `parse_bracket(name + group + tail)`: every block is a whole (balanced) group of the kind, and the blocks are the group,
+    the groups of the kind at its top level and the groups at *their* top level, in pre-order. -/
+theorem parseBracket_spec (k : BK) (name tail : Str) (inner : Frag)
+    (hname : ∀ c ∈ name, has Frag.special c = false ∧ has [' ', '\n', '\t'] c = false)
+    (htail : ∀ c ∈ tail, has Frag.special c = false) (hi : Frag.Simple inner) :
+    parseBracket (name ++ k.open :: (inner.render ++ k.close :: tail)) [k.open, k.close] = .ok (bracketSpec k inner) := by
+  obtain ⟨ins, hparse, hgood, hleaf⟩ := parse_root k name tail inner hname htail hi
+  generalize hT : name ++ k.open :: (inner.render ++ k.close :: tail) = T at hparse hgood
+  have hroot : Sits T k (name.length, inner) := ⟨name, tail, by rw [← hT]; simp [groupText], rfl⟩
+  have hanaT : analyzeEntry T [k.open, k.close] [] 0 = .ok (.block 0 name.length) := by
+    rw [← hT]; exact analyze_name k name _ hname
   have hstep : bracketStep T [k.open, k.close] [] (Entry.mk 0 (name.length + 1 + inner.render.length + 1) 0 .Block ins)
-      = .ok [k.open :: (inner.render ++ [k.close])] := by
-    simp only [bracketStep, Entry.kind, Entry.begin, Entry.end_, if_true, hana, Except.bind, List.nil_append]
-    congr 2
-    have : name.length + 1 + inner.render.length + 1 = name.length + (k.open :: (inner.render ++ [k.close])).length := by
-      simp; omega
-    rw [this, ← hT]
-    have e3 : name ++ k.open :: (inner.render ++ k.close :: tail) = name ++ ((k.open :: (inner.render ++ [k.close])) ++ tail) := by simp
-    rw [e3, slice, ← List.append_assoc, ← List.length_append, List.take_left, List.drop_left]
-  rw [hstep] at h
-  exact foldlM_bracketStep_head T [k.open, k.close] _ _ _ blocks rfl h
+      = .ok ([] ++ [groupText k inner]) :=
+    step_block T k [] _ (name.length, inner) rfl ⟨⟨0, hanaT⟩, by simp only [Entry.end_]; omega⟩ hroot
+  have hsits : ∀ g ∈ kGroupsAt k inner (name.length + 1), Sits T k g := sits_inner T k (name.length, inner) hroot
+  have hf1 := fold1 T k ins _ ([] ++ [groupText k inner]) (hgood 1) hleaf hsits
+  unfold parseBracket
+  rw [hparse]
+  have hu : (Entry.mk 0 (name.length + 1 + inner.render.length + 1) 0 .Block ins).unders
+      = ins.flatMap fun x => x :: x.entries := rfl
+  simp only [Except.bind, hu]
+  rw [foldlM_cons_ok _ _ _ [] _ hstep, hf1]
+  simp only [bracketSpec, List.nil_append, List.singleton_append]
+  congr 2
+  rw [← kGroupsAt_snd k inner (name.length + 1), List.flatMap_map]
+  congr 1
+  funext g
+  rw [← kGroupsAt_snd k g.2 (g.1 + 1), List.map_map]
+  rfl
 
 end Tranp.Block
